@@ -196,7 +196,7 @@ impl<F: AsFd, E> Generic<F, E> {
         &&& o.tok() != Some(token) ==> (r is Ok && r->Ok_0 is Continue)
     }
 //@ endregion
-//@ item src/sources/generic.rs / impl EventSource for Generic<F, E> / fn process_events props=C16,C01,C07 ret=r
+//@ item src/sources/generic.rs / impl EventSource for Generic<F, E> / fn process_events props=C16,C01,C07,C03,C19,C02 ret=r
 //@ rw R8 1 <<process_events<C>>> => <<process_events<CbF>>>
 //@ rw R8 1 <<mut callback: C,>> => <<mut callback: CbF,>>
 //@ rw R8 1 <<C: FnMut(Self::Event>> => <<CbF: FnMut(Self::Event>>
@@ -204,7 +204,7 @@ impl<F: AsFd, E> Generic<F, E> {
         ensures
             old(self).tok() == Some(token) ==> exists|m0: &mut NoIoDrop<F>| #[trigger] call_ensures(callback, (readiness, m0), r),
 //@ enditem
-//@ item src/sources/generic.rs / impl EventSource for Generic<F, E> / fn register props=C16,C15,C01,C02 ret=r
+//@ item src/sources/generic.rs / impl EventSource for Generic<F, E> / fn register props=C16,C15,C01,C02,C03,C19 ret=r
 //@ spec
         ensures
             r is Ok ==> (final(self).tok() matches Some(t) && t.tok() == old(token_factory).next()),
@@ -218,7 +218,7 @@ impl<F: AsFd, E> Generic<F, E> {
 //@ entry
         proof { broadcast use crate::ext::axiom_fd_raw_ref; }
 //@ enditem
-//@ item src/sources/generic.rs / impl EventSource for Generic<F, E> / fn reregister props=C16,C15,C01,C02 ret=r
+//@ item src/sources/generic.rs / impl EventSource for Generic<F, E> / fn reregister props=C16,C15,C01,C02,C03,C19 ret=r
 //@ spec
         ensures
             r is Ok ==> (final(self).tok() matches Some(t) && t.tok() == old(token_factory).next()),
@@ -230,7 +230,7 @@ impl<F: AsFd, E> Generic<F, E> {
 //@ entry
         proof { broadcast use crate::ext::axiom_fd_raw_ref; }
 //@ enditem
-//@ item src/sources/generic.rs / impl EventSource for Generic<F, E> / fn unregister props=C16,C15,C07 ret=r
+//@ item src/sources/generic.rs / impl EventSource for Generic<F, E> / fn unregister props=C16,C15,C07,C03,C19 ret=r
 //@ spec
         ensures
             // C16: Ok means the wrapped fd HAS been deleted from the OS poller
